@@ -5,7 +5,7 @@
 //!   raster of the declared size (full width, height truncated to a multiple of six) with every pixel
 //!   painted, nothing painted outside, at most 256 registers defined; when the source has at most 256
 //!   distinct colours at 0-100 resolution and is not subsampled, the raster equals the source at that
-//!   resolution (opaque pixels exactly; transparent pixels composited over the background, see `TOL`).
+//!   resolution, pixel for pixel (transparent pixels composited over the background first).
 //!   Two draws of one image on ONE handler must give identical bytes.
 //! * ORACLE (Lean): the verified reference interpreter `SurfModel.Sixel.sixel` is run on the
 //!   implementation's bytes (`c12 dec`, `c12 sum`) and must print the expected raster.
@@ -19,10 +19,6 @@ use surf_n_term::{
     Color, Image, ImageHandler, Position, RGBA, Shape, SixelImageHandler, Size, Surface,
 };
 use verif_harness::{Cfg, r#gen::Rng, guarded, out::Out, out::hex};
-
-/// allowed difference (in 0-100 levels) for pixels that are not opaque: the code reduces the channels
-/// before compositing over the background, the property composites first
-const TOL: i32 = 1;
 
 // ---------------------------------------------------------------------------------------------
 // independent sixel decoder
@@ -167,7 +163,7 @@ fn decode(bytes: &[u8]) -> Result<Decoded, String> {
                         return Err(format!("colour register {} defined", ps[0]));
                     }
                     if ps[1] != 2 {
-                        return Err(format!("colour coordinate system {} (only 2 = RGB handled)", ps[1]));
+                        return Err(format!("unsupported: colour coordinate system {} (only 2 = RGB is decoded)", ps[1]));
                     }
                     if ps[2] > 100 || ps[3] > 100 || ps[4] > 100 {
                         return Err(format!("colour #{} component above 100: {:?}", ps[0], &ps[2..]));
@@ -516,6 +512,14 @@ fn corner_cases() -> Vec<Case> {
             v.push(mk("crop", w, h, px.clone(), None, Some(crop)));
         }
     }
+    // one pixel stream under different shapes (4x6, 2x12, 1x24, 3x8 ...): drawn one after the other on the
+    // long-lived handler, each must come out with its own size (the cache key has to depend on the shape)
+    for solid_stream in [true, false] {
+        let stream: Vec<[u8; 4]> = (0..24).map(|i| if solid_stream { [200, 10, 10, 255] } else { [(i * 10) as u8, 255 - (i * 9) as u8, (i % 3 * 100) as u8, 255] }).collect();
+        for (w, h) in [(4usize, 6usize), (2, 12), (1, 24), (3, 8), (4, 6)] {
+            v.push(mk(&format!("stream-{w}x{h}"), w, h, stream.clone(), None, None));
+        }
+    }
     v
 }
 
@@ -583,10 +587,13 @@ fn pre_reduce(c: [u8; 4]) -> [u8; 4] {
     [red, green, blue, alpha]
 }
 
-/// `(palette, qimg)` as `draw` obtains them, through the public API
+/// `(palette, qimg)` as `draw` obtains them, through the public API: rows `..height` of the view, every
+/// pixel composited over the background (when not opaque) and channel-reduced, then `quantize(256, true, bg)`.
 fn quantised(img: &Image, bg: Option<RGBA>) -> Option<(Vec<[u8; 3]>, Vec<usize>)> {
     let height = (img.height() / 6) * 6;
+    let back = bg.unwrap_or(RGBA::new(0, 0, 0, 255));
     let dimg = Image::from(img.view(..height, ..).map(|_, color| {
+        let color = if color.to_rgba()[3] < 255 { back.blend_over(*color) } else { *color };
         let [r, g, b, a] = pre_reduce(color.to_rgba());
         RGBA::new(r, g, b, a)
     }));
@@ -637,23 +644,25 @@ fn run_case(out: &mut Out, shared: &mut Shared, case: &Case, full_lines: bool) {
             return;
         }
     };
-    // the same pixels in a fresh allocation are the same image for the handler
-    let third = draw(&mut handler, &case.image());
-    if third.as_ref().ok() != Some(&bytes) {
-        out.fail("draw of an equal image on the same handler emits different bytes", input.clone(), json!(hex(&bytes)), json!(format!("{:?}", third.map(|b| hex(&b)))));
-    }
+    // the same pixels in a fresh allocation, and the image on another handler: the same picture (the
+    // property demands identical bytes only for the same image on the same handler)
+    let third = draw(&mut handler, &case.image()).unwrap_or_default();
     let other = draw(&mut SixelImageHandler::new(bg), &img).unwrap_or_default();
 
     // -- oracle ---------------------------------------------------------------------------------
     let src: Vec<[u8; 3]> = vis.iter().map(|p| composite(*p, case.bg).map(level)).collect();
     let opaque = vis.iter().take(vw * th).all(|p| p[3] == 255);
     let distinct: BTreeSet<[u8; 3]> = src.iter().take(vw * th).copied().collect();
-    // with transparency the code composites after the channel reduction; count generously
-    let fits = distinct.len() <= if opaque { 256 } else { 128 } && vw * th < 2 * 25600;
+    let fits = distinct.len() <= 256 && vw * th < 2 * 25600;
     let d = match decode(&bytes) {
         Ok(d) => d,
         Err(e) => {
-            out.fail("output is not a well-formed sixel sequence", input, json!("DCS q … ST accepted by the decoder"), json!(format!("{e}; bytes={}", hex(&bytes))));
+            if e.starts_with("unsupported") {
+                // nothing the property forbids, but nothing the model ever emits: a correspondence matter
+                out.corr("c12 emits-only-rgb-colour-definitions", &e);
+            } else {
+                out.fail("output is not a well-formed sixel sequence", input, json!("DCS q … ST accepted by the decoder"), json!(format!("{e}; bytes={}", hex(&bytes))));
+            }
             return;
         }
     };
@@ -680,11 +689,14 @@ fn run_case(out: &mut Out, shared: &mut Shared, case: &Case, full_lines: bool) {
             for x in 0..vw {
                 let want = src[y * vw + x];
                 let got = d.pix[y * vw + x].unwrap();
-                let exact = vis[y * vw + x][3] == 255;
-                let tol = if exact { 0 } else { TOL };
-                if (0..3).any(|i| (want[i] as i32 - got[i] as i32).abs() > tol) {
+                if want != got {
                     ok = false;
-                    out.fail("decoded pixel differs from the source at 0-100 resolution", input.clone(), json!({"x": x, "y": y, "rgb100": want}), json!({"rgb100": got}));
+                    let what = if vis[y * vw + x][3] == 255 {
+                        "decoded pixel differs from the source at 0-100 resolution"
+                    } else {
+                        "non-opaque source pixel: decoded level differs from the composited source at 0-100 resolution"
+                    };
+                    out.fail(what, input.clone(), json!({"x": x, "y": y, "rgb100": want}), json!({"rgb100": got}));
                     break;
                 }
             }
@@ -693,12 +705,14 @@ fn run_case(out: &mut Out, shared: &mut Shared, case: &Case, full_lines: bool) {
             }
         }
     }
-    // another handler instance: same picture, possibly other byte order
-    match decode(&other) {
-        Ok(o) if o.pix == d.pix && canonical(&other, &o) == canonical(&bytes, &d) => {}
-        _ => {
-            ok = false;
-            out.fail("a fresh handler draws a different picture for the same image", input.clone(), json!(hex(&canonical(&bytes, &d))), json!(hex(&other)));
+    // another handler instance / an equal image in a fresh allocation: same picture
+    for (what, b) in [("a fresh handler draws a different picture for the same image", &other), ("an equal image (fresh allocation) draws a different picture on the same handler", &third)] {
+        match decode(b) {
+            Ok(o) if o.pix == d.pix && (o.width, o.height) == (d.width, d.height) => {}
+            _ => {
+                ok = false;
+                out.fail(what, input.clone(), json!(hex(&canonical(&bytes, &d))), json!(hex(b)));
+            }
         }
     }
     // the long-lived handler of this background: same picture although it has drawn many other images
@@ -706,7 +720,7 @@ fn run_case(out: &mut Out, shared: &mut Shared, case: &Case, full_lines: bool) {
         let got = draw(shared.handler(case.bg), &img);
         let again = draw(shared.handler(case.bg), &img);
         let same = match (&got, &again) {
-            (Ok(a), Ok(b)) if a == b => decode(a).map(|o| o.pix == d.pix && canonical(a, &o) == canonical(&bytes, &d)).unwrap_or(false),
+            (Ok(a), Ok(b)) if a == b => decode(a).map(|o| o.pix == d.pix && (o.width, o.height) == (d.width, d.height)).unwrap_or(false),
             _ => false,
         };
         if !same {
@@ -745,10 +759,12 @@ fn run_case(out: &mut Out, shared: &mut Shared, case: &Case, full_lines: bool) {
 
     // -- correspondence: model of the encoder on (palette, qimg) ---------------------------------
     let canon = canonical(&bytes, &d);
-    if let Some((pal, q)) = quantised(&img, bg) {
+    let pair = quantised(&img, bg);
+    if let Some((pal, q)) = pair {
         let palhex = hex(&pal.iter().flatten().copied().collect::<Vec<u8>>());
         let qhex = hex(&q.iter().flat_map(|i| [(*i >> 8) as u8, *i as u8]).collect::<Vec<u8>>());
-        out.corr(&format!("c12 enc {vw} {th} {palhex} {qhex}"), &hex(&canon));
+        // `vh`, not `th`: the model truncates the height itself
+        out.corr(&format!("c12 draw {vw} {vh} {palhex} {qhex}"), &hex(&canon));
         out.hist(&format!("palette:{}", match pal.len() { 1 => "1", 2..=4 => "2-4", 5..=32 => "5-32", 33..=255 => "33-255", _ => "256" }));
     } else {
         out.fail("quantize gives nothing for a non-empty image", input.clone(), json!("Some"), json!("None"));
@@ -847,10 +863,12 @@ fn session_image(seed: u64, i: usize) -> Image {
 fn run_session(out: &mut Out, seed: u64, count: usize, stride: usize, limit: usize) {
     let mut handler = SixelImageHandler::new(None);
     let mut firsts: Vec<Vec<u8>> = Vec::new();
+    let mut images: Vec<Image> = Vec::new();
     let mut encoded = 0usize;
     let mut redraws = 0u64;
     for i in 0..count {
         let img = session_image(seed, i);
+        images.push(img.clone());
         let bytes = match draw(&mut handler, &img) {
             Ok(b) => b,
             Err(e) => {
@@ -865,7 +883,7 @@ fn run_session(out: &mut Out, seed: u64, count: usize, stride: usize, limit: usi
         }
         if (i + 1) % stride == 0 || i + 1 == count {
             for (j, first) in firsts.iter().enumerate() {
-                let again = draw(&mut handler, &session_image(seed, j)).unwrap_or_default();
+                let again = draw(&mut handler, &images[j]).unwrap_or_default();
                 redraws += 1;
                 if &again != first {
                     let same_picture = match (decode(first), decode(&again)) {
@@ -890,40 +908,160 @@ fn run_session(out: &mut Out, seed: u64, count: usize, stride: usize, limit: usi
     out.extra(&format!("session_{seed}"), json!({"images": firsts.len(), "sixel_bytes": encoded, "redraws_checked": redraws}));
 }
 
-/// exhaustive comparison on grey pixels: decoded level of (c,c,c,a) over background (b,b,b) against
-/// level(composite) — all c, the given alphas and backgrounds; returns (pixels compared, differing, first witnesses)
-fn alpha_grid(alphas: &[u8], bgs: &[u8]) -> (u64, u64, Vec<Value>) {
-    let (mut n, mut bad, mut wit) = (0u64, 0u64, Vec::new());
+/// The property's exactness clause on non-opaque pixels, through real draws: a 256 x 6 image holding the
+/// greys (c,c,c,a) for every c, drawn over the background (b,b,b,255); every decoded pixel must be
+/// level(composite).  A failure is reported as the 1 x 6 single-colour image that shows it.
+fn alpha_grid(out: &mut Out, alphas: &[u8], bgs: &[u8]) -> (u64, u64) {
+    let (mut n, mut bad) = (0u64, 0u64);
     for &b in bgs {
         let bg = [b, b, b, 255];
         for &a in alphas {
             let px: Vec<[u8; 4]> = (0..6).flat_map(|_| (0..=255u8).map(move |c| [c, c, c, a])).collect();
             let case = Case { w: 256, h: 6, px, bg: Some(bg), crop: None, tag: "alpha-grid".into() };
-            let Ok(bytes) = draw(&mut SixelImageHandler::new(Some(RGBA::new(b, b, b, 255))), &case.image()) else { bad += 1; continue };
-            let Ok(d) = decode(&bytes) else { bad += 1; continue };
+            let decoded = draw(&mut SixelImageHandler::new(Some(RGBA::new(b, b, b, 255))), &case.image()).and_then(|bytes| decode(&bytes));
             for c in 0..256usize {
                 let want = composite([c as u8, c as u8, c as u8, a], Some(bg)).map(level);
-                let got = d.pix.get(c).copied().flatten().unwrap_or([255; 3]);
+                let got = decoded.as_ref().ok().and_then(|d| d.pix.get(c).copied().flatten());
                 n += 1;
-                if want != got {
+                if got != Some(want) {
                     bad += 1;
-                    if wit.len() < 8 {
-                        wit.push(json!({"c": c, "alpha": a, "bg": b, "want": want, "got": got}));
+                    if bad <= 3 {
+                        let witness = Case { w: 1, h: 6, px: vec![[c as u8, c as u8, c as u8, a]; 6], bg: Some(bg), crop: None, tag: "alpha-grid-witness".into() };
+                        out.fail(
+                            "non-opaque source pixel: decoded level differs from the composited source at 0-100 resolution",
+                            witness.to_json(),
+                            json!({"rgb100": want}),
+                            json!({"rgb100": got}),
+                        );
                     }
                 }
             }
         }
     }
-    (n, bad, wit)
+    out.extra("alpha_grid", json!({"pixels_compared": n, "differing": bad, "alphas": alphas.len(), "backgrounds": bgs.len()}));
+    (n, bad)
+}
+
+/// images that `draw` answers with nothing: width 0, or fewer than six rows (`quantize` returns `None`)
+fn run_degenerate(out: &mut Out, w: usize, h: usize) {
+    let img = Image::from_parts(vec![RGBA::new(9, 99, 199, 255); w * h].into(), Shape::from(Size::new(h, w)));
+    let mut handler = SixelImageHandler::new(None);
+    let input = json!({"w": w, "h": h, "degenerate": true});
+    match (draw(&mut handler, &img), draw(&mut handler, &img)) {
+        (Ok(a), Ok(b)) => {
+            if a != b {
+                out.fail("second draw of the same image on one handler emits different bytes", input.clone(), json!(hex(&a)), json!(hex(&b)));
+            }
+            // the model: nothing is written (explicit outcome)
+            out.corr(&format!("c12 draw {w} {h} - -"), &hex(&a));
+            // whatever is written must be a sixel sequence (height >= 6 only: the property's domain)
+            if !a.is_empty() && h >= 6 {
+                if let Err(e) = decode(&a) {
+                    out.fail("output is not a well-formed sixel sequence", input, json!("nothing or DCS q … ST"), json!(e));
+                }
+            }
+        }
+        (a, b) => out.fail("draw failed", input, json!("Ok"), json!(format!("{:?} / {:?}", a.err(), b.err()))),
+    }
+    out.case(&format!("degenerate {w} {h}"), false);
+    out.hist("degenerate");
+}
+
+// ---------------------------------------------------------------------------------------------
+// the eviction loop: handlers with a small cache budget (hook `verif_c12::with_cache_size`)
+// ---------------------------------------------------------------------------------------------
+
+/// A session on one handler whose budget is `budget` bytes.  Images come from a pool (48 x 128, 48 x 64
+/// and small noise images), every draw is followed now and then by an immediate second draw.
+/// ORACLE: every draw gives the image's picture; a draw of an image that is in the cache (hook view of
+/// the cache before the draw) gives the bytes of its previous draw; a second draw right after a draw whose
+/// encoding fits the budget gives identical bytes.
+/// CORRESPONDENCE: the trace (hit / miss and `size` after every draw, final content from most to least
+/// recently used) against the Lean `Handler` model with the same budget.
+fn run_eviction_session(out: &mut Out, seed: u64, budget: usize, ops: usize) {
+    use surf_n_term::image::verif_c12::{cache_state, with_cache_size};
+    let mut rng = Rng::new(seed);
+    let pool: Vec<Image> = (0..18)
+        .map(|i| {
+            let (w, h, ncol) = match i % 3 {
+                0 => (48, 128, 64),
+                1 => (48, 60, 32),
+                _ => (1 + rng.below(24) as usize, 6 + rng.below(24) as usize, 6),
+            };
+            let pal = pick_palette(&mut rng, ncol, false);
+            let data: Vec<RGBA> = (0..w * h).map(|_| { let c = *rng.pick(&pal); RGBA::new(c[0], c[1], c[2], 255) }).collect();
+            Image::from_parts(data.into(), Shape::from(Size::new(h, w)))
+        })
+        .collect();
+    // budget 0 stands for "exactly the encoded length of the first pool image" (size == budget: the
+    // loop condition is `>`, the entry must stay)
+    let budget = if budget == 0 { draw(&mut SixelImageHandler::new(None), &pool[0]).map(|b| b.len()).unwrap_or(1) } else { budget };
+    let mut handler = with_cache_size(None, budget);
+    let mut last: Vec<Option<Vec<u8>>> = vec![None; pool.len()];
+    let mut picture: Vec<Option<Vec<Option<[u8; 3]>>>> = vec![None; pool.len()];
+    let mut history: Vec<usize> = Vec::new();
+    let mut trace = String::new();
+    let mut req = String::new();
+    let (mut hits, mut misses, mut evictions) = (0u64, 0u64, 0u64);
+    let mut pending_repeat: Option<usize> = None;
+    for _ in 0..ops {
+        let i = match pending_repeat.take() {
+            Some(i) => i,
+            None => if history.is_empty() { 0 } else if rng.chance(1, 3) { history[history.len() - 1 - rng.below(history.len().min(4) as u64) as usize] } else { rng.below(pool.len() as u64) as usize },
+        };
+        let immediate = history.last() == Some(&i);
+        history.push(i);
+        let key = Surface::hash(&pool[i]);
+        let (_, before) = cache_state(&handler);
+        let cached = before.iter().any(|e| e.0 == key);
+        let fail_input = json!({"eviction_seed": seed, "budget": budget, "ops": history.len(),
+            "history": format!("handler with a cache budget of {budget} bytes; pool image indices drawn in this order: {history:?}")});
+        let bytes = match draw(&mut handler, &pool[i]) {
+            Ok(b) => b,
+            Err(e) => {
+                out.fail("draw failed in a session", fail_input, json!("Ok"), json!(e));
+                return;
+            }
+        };
+        let pix = decode(&bytes).map(|d| d.pix).unwrap_or_default();
+        if let Some(p) = &picture[i] {
+            if *p != pix {
+                out.fail("an image drawn again on one handler gives a different picture", fail_input, json!("the picture of its first draw"), json!(hex(&bytes[..bytes.len().min(400)])));
+                return;
+            }
+        } else {
+            picture[i] = Some(pix);
+        }
+        if let Some(prev) = &last[i] {
+            let must_equal = cached || (immediate && prev.len() <= budget);
+            if must_equal && *prev != bytes {
+                out.fail(
+                    if cached { "an image that is in the cache is drawn with different bytes" } else { "second draw right after the first emits different bytes although the encoding fits the cache budget" },
+                    fail_input,
+                    json!(hex(&prev[..prev.len().min(400)])),
+                    json!(hex(&bytes[..bytes.len().min(400)])),
+                );
+                return;
+            }
+        }
+        let (size, after) = cache_state(&handler);
+        if cached { hits += 1 } else { misses += 1; evictions += (before.len() + 1 - after.len()) as u64 }
+        trace.push_str(&format!("{}{} ", if cached { 'h' } else { 'm' }, size));
+        req.push_str(&format!("{}{}:{}", if req.is_empty() { "" } else { "," }, key, bytes.len()));
+        if bytes.len() <= budget && rng.chance(1, 4) {
+            pending_repeat = Some(i);
+        }
+        last[i] = Some(bytes);
+    }
+    let (size, content) = cache_state(&handler);
+    let content: Vec<String> = content.iter().map(|(k, l)| format!("{k}:{l}")).collect();
+    out.corr(&format!("c12 cache {budget} {req}"), &format!("{trace}| {size} {}", if content.is_empty() { "-".to_string() } else { content.join(",") }));
+    out.case(&format!("eviction {seed} {budget} {ops}"), evictions > 0);
+    out.hist("eviction-session");
+    out.extra(&format!("eviction_{seed}"), json!({"budget": budget, "draws": ops, "hits": hits, "misses": misses, "evictions": evictions}));
 }
 
 fn main() {
-    if std::env::var("C12_PROBE").is_ok() {
-        let all: Vec<u8> = (0..=255).collect();
-        let (n, bad, wit) = alpha_grid(&all[..255], &all);
-        println!("compared {n} differing {bad}\n{}", serde_json::to_string_pretty(&wit).unwrap());
-        return;
-    }
     let cfg = Cfg::from_env();
     let corners = corner_cases();
     if std::env::var("C12_LOUD").is_err() { verif_harness::silence_panics(); }
@@ -935,6 +1073,16 @@ fn main() {
     let rule = "one case = one image (size, pixels, background, crop) drawn twice on one handler and once on a fresh one; non-trivial = more than one colour register or a repeat count above 3; distinct by (visible pixels, size, background)";
     if let Some(r) = &cfg.replay {
         let inp = &r["failure"]["input"];
+        if let (Some(seed), Some(budget), Some(ops)) = (inp["eviction_seed"].as_u64(), inp["budget"].as_u64(), inp["ops"].as_u64()) {
+            run_eviction_session(&mut out, seed, budget as usize, ops as usize);
+            out.finish(rule);
+            return;
+        }
+        if inp["degenerate"].as_bool() == Some(true) {
+            run_degenerate(&mut out, inp["w"].as_u64().unwrap_or(0) as usize, inp["h"].as_u64().unwrap_or(0) as usize);
+            out.finish(rule);
+            return;
+        }
         if let (Some(seed), Some(count), Some(stride)) = (inp["session_seed"].as_u64(), inp["count"].as_u64(), inp["stride"].as_u64()) {
             run_session(&mut out, seed, count as usize, (stride as usize).max(1), 64 << 20);
             out.finish(rule);
@@ -960,6 +1108,17 @@ fn main() {
         let p = pre_reduce(c);
         out.corr(&format!("c12 pre {} {} {}", c[0], c[1], c[2]), &format!("{} {} {}", p[0], p[1], p[2]));
     }
+    // exactness on non-opaque pixels: a grid of (colour, alpha, background) triples
+    {
+        let all: Vec<u8> = (0..=254).collect();
+        let some_alphas = [0u8, 1, 2, 3, 64, 127, 128, 200, 253, 254];
+        let many_bgs: Vec<u8> = (0..16).map(|i| (i * 17) as u8).collect();
+        if cfg.thorough {
+            alpha_grid(&mut out, &all, &many_bgs);
+        } else {
+            alpha_grid(&mut out, &some_alphas, &[0, 30, 128, 255]);
+        }
+    }
     for case in corners {
         run_case(&mut out, &mut shared, &case, true);
     }
@@ -969,6 +1128,15 @@ fn main() {
         let mut r = rng.fork();
         let px = gen_image(&mut r, w, h, 700, false);
         run_case(&mut out, &mut shared, &Case { w, h, px, bg: None, crop: None, tag: "subsampled".into() }, false);
+    }
+    // images answered with nothing
+    for (w, h) in [(0usize, 6usize), (0, 12), (0, 0), (5, 0), (5, 1), (5, 5), (1, 3), (300, 5)] {
+        run_degenerate(&mut out, w, h);
+    }
+    // the eviction loop, with budgets of 64 KiB and less
+    for (k, budget) in [65536usize, 30000, 100_000, 4096, 1, 0].iter().enumerate() {
+        let ops = if cfg.thorough { 600 } else { 90 };
+        run_eviction_session(&mut out, rng.next() ^ k as u64, *budget, ops);
     }
     // sessions: quick one of about 1.3 MiB of sixel output, thorough several up to about 12 MiB
     // (the cache budget is 128 MiB: nothing may be evicted, every redraw must be byte-identical)
